@@ -32,6 +32,8 @@ LeafOf(tv)  == IF tv.g = "bool" THEN Leaf("bool", tv.s) ELSE IF tv.g = "string" 
                ELSE IF "sneg" \in DOMAIN tv THEN [p |-> "leaf", t |-> "num", s |-> tv.s, sneg |-> tv.sneg] ELSE Leaf("num", tv.s)
 
 IsNilPtr(tv)  == tv.g \in {"ptr", "iface"} /\ tv.nil
+RECURSIVE NilChainE(_)
+NilChainE(tv) == tv.g \in {"ptr", "iface"} /\ ~tv.nil /\ (IsNilPtr(tv.a[1]) \/ NilChainE(tv.a[1]))
 IsNilCont(tv) == tv.g \in {"slice", "map"} /\ tv.nil
 \* encoding/json's definition of an empty value (the meaning of the omitempty tag option)
 GoEmpty(tv) == \/ (tv.g = "bool" /\ tv.s = "false") \/ (NumKind(tv) /\ tv.s = "0") \/ (tv.g = "string" /\ tv.s = "")
@@ -66,6 +68,7 @@ FieldReq(f, o) == LET v == f.v IN
    IF o.tags /\ f.oe /\ GoEmpty(v) THEN "not"               \* omitempty: for that field
    ELSE IF o.onil /\ IsNilPtr(v) THEN "not"                  \* OmitNil "skips the writing of nil values in an object"
    ELSE IF o.onil /\ IsNilCont(v) THEN "may"                 \*   nil slices / maps: a nil value or an empty container?
+   ELSE IF o.onil /\ NilChainE(v) THEN "may"                 \*   a non-nil pointer whose chain ends in nil (type P *P) encodes as null
    ELSE IF o.oempty /\ OmitEmptyMust(v) THEN "not"
    ELSE IF o.oempty /\ Emptyish(v) THEN "may"
    ELSE IF v.g = "other" THEN "may"
